@@ -418,6 +418,9 @@ pub fn gen_case_univ(rng: &mut Rng, kind: &str, nops: usize, keys: &[&str], pref
                 let n = rng.range(1, 3);
                 let mut rs: Vec<String> = (0..n).map(|_| gen_range(rng, cur, true)).collect();
                 if !allow_empty { rs.retain(|r| !(r.ends_with(":0") || r == "s0" || r == &format!("f{}:", cur))); if rs.is_empty() { rs.push(format!("f0:{}", cur.max(1))); } }
+                // ranges far beyond any value (what a corrupted offset/length table asks for): an error or the truncated
+                // slice, never a crash (2^63 does not fit a signed seek offset, 2^64-9 does not fit an allocation)
+                if rng.chance(1, 8) { rs.push(rng.pick(&["f9223372036854775808:", "s9223372036854775809", "f0:18446744073709551607", "f18446744073709551615:1", "s18446744073709551615", "f1:9223372036854775807", "f4611686018427387904:4611686018427387904"]).to_string()); }
                 format!("c08 op getp k={} r={}", k, rs.join(","))
             }
             12 => format!("c08 op sizep p={}", p),
